@@ -36,6 +36,7 @@ for sid in sorted(os.listdir(os.path.join(VERIF, "seeded"))):
             if "failed" not in res:
                 break
         base = re.sub(r"\s*cli \((?:re-run at idle, )?attempt \d+\):.*$", "", s.strip())
+        base = re.sub(r"\s*cli: deferred.*$", "", base)
         base = re.sub(r"/verif/tools/run_suite.sh: line \d+: ", "", base).replace(": No such file or directory", "")
         meta["confirmed"]["test_suite_with_patch"] = f"{base} cli (re-run at idle, attempt {attempt}): {res}"
         json.dump(meta, open(mp, "w"), indent=1)
